@@ -173,39 +173,114 @@ func c01Deliver(c *Check) {
 		}
 		return nil, false
 	}
-	// closures that fan an error out over a list: name -> ranged object
-	fanout := map[types.Object]types.Object{}
+	// Closures (and functions of the package) that fan an error out over a list. Two shapes: `func(err error)` ranging
+	// a fixed list, and `func(rcpts []string, err error)` ranging its list parameter.
+	type fan struct {
+		fixed   types.Object // the list ranged, if it is not a parameter
+		listIdx int          // index of the list parameter (-1 if fixed)
+		errIdx  int          // index of the error parameter
+	}
+	fanOf := func(inf *types.Info, ft *ast.FuncType, body *ast.BlockStmt) (fan, bool) {
+		var prms []types.Object
+		if ft.Params != nil {
+			for _, f := range ft.Params.List {
+				for _, nm := range f.Names {
+					prms = append(prms, inf.Defs[nm])
+				}
+			}
+		}
+		for _, l := range elemLoops(inf, body, func(e ast.Expr) bool {
+			sl, ok := inf.TypeOf(e).Underlying().(*types.Slice)
+			return ok && isStringType(sl.Elem())
+		}) {
+			if !l.Whole {
+				continue
+			}
+			l := l
+			errIdx := -1
+			ast.Inspect(l.Body, func(x ast.Node) bool {
+				if a2, ok := x.(*ast.AssignStmt); ok && len(a2.Lhs) == 1 && len(a2.Rhs) == 1 {
+					if ix, isIx := ast.Unparen(a2.Lhs[0]).(*ast.IndexExpr); isIx && isField(inf, ix.X, "partialError", "Errs") && l.IsElem(ix.Index) {
+						for i, po := range prms {
+							if objOf(inf, a2.Rhs[0]) == po && po != nil {
+								errIdx = i
+							}
+						}
+					}
+				}
+				return true
+			})
+			if errIdx < 0 {
+				continue
+			}
+			escape := false
+			inspectNoLit(l.Body, func(x ast.Node) bool {
+				switch b := x.(type) {
+				case *ast.BranchStmt:
+					escape = escape || b.Tok != token.FALLTHROUGH
+				case *ast.ReturnStmt:
+					escape = true
+				}
+				return true
+			})
+			if escape {
+				continue
+			}
+			lo := objOf(inf, l.List)
+			for i, po := range prms {
+				if lo == po && po != nil {
+					return fan{listIdx: i, errIdx: errIdx}, true
+				}
+			}
+			return fan{fixed: lo, listIdx: -1, errIdx: errIdx}, true
+		}
+		return fan{}, false
+	}
+	fanout := map[types.Object]fan{}
 	ast.Inspect(r.FI.Decl.Body, func(n ast.Node) bool {
 		as, ok := n.(*ast.AssignStmt)
 		if !ok || len(as.Lhs) != 1 || len(as.Rhs) != 1 {
 			return true
 		}
 		fl, ok := as.Rhs[0].(*ast.FuncLit)
-		if !ok || fl.Type.Params == nil || len(fl.Type.Params.List) != 1 {
+		if !ok {
 			return true
 		}
-		var prm types.Object
-		if len(fl.Type.Params.List[0].Names) == 1 {
-			prm = info.Defs[fl.Type.Params.List[0].Names[0]]
-		}
-		for _, rs := range rangesIn(fl.Body, func(*ast.RangeStmt) bool { return true }) {
-			stores := false
-			ast.Inspect(rs.Body, func(x ast.Node) bool {
-				if a2, ok := x.(*ast.AssignStmt); ok && len(a2.Lhs) == 1 && len(a2.Rhs) == 1 {
-					if k, ok := isErrsStore(a2.Lhs[0]); ok && rs.Value != nil && objOf(info, k) == objOf(info, rs.Value) && objOf(info, a2.Rhs[0]) == prm {
-						stores = true
-					}
-				}
-				return true
-			})
-			if stores {
-				if o := objOf(info, as.Lhs[0]); o != nil {
-					fanout[o] = objOf(info, rs.X)
-				}
+		if fn, ok := fanOf(info, fl.Type, fl.Body); ok {
+			if o := objOf(info, as.Lhs[0]); o != nil {
+				fanout[o] = fn
 			}
 		}
 		return true
 	})
+	// fanCall: the call records eo for every element of which list?
+	fanCall := func(call *ast.CallExpr, eo types.Object) (ast.Expr, types.Object, bool) {
+		var fn fan
+		found := false
+		if id, ok := call.Fun.(*ast.Ident); ok {
+			fn, found = fanout[objOf(info, id)]
+		}
+		if !found {
+			if cf := callee(info, call); cf != nil && cf.Pkg() == r.FI.Obj.Pkg() {
+				if d := c.P.DeclOf(cf); d != nil && d.Decl.Body != nil {
+					fn, found = fanOf(d.Info(), d.Decl.Type, d.Decl.Body)
+					if found && fn.listIdx < 0 {
+						found = false // a fixed list inside another function is not this message's list
+					}
+				}
+			}
+		}
+		if !found || fn.errIdx >= len(call.Args) || objOf(info, call.Args[fn.errIdx]) != eo {
+			return nil, nil, false
+		}
+		if fn.listIdx >= 0 {
+			if fn.listIdx >= len(call.Args) {
+				return nil, nil, false
+			}
+			return call.Args[fn.listIdx], objOf(info, call.Args[fn.listIdx]), true
+		}
+		return nil, fn.fixed, true
+	}
 	// accepted list: the local appended with the recipient on AddRcpt's nil edge
 	type stage struct {
 		name string
@@ -282,9 +357,16 @@ func c01Deliver(c *Check) {
 							}
 						}
 					case *ast.CallExpr:
-						if id, ok := s.Fun.(*ast.Ident); ok && len(s.Args) == 1 && objOf(info, s.Args[0]) == eo {
-							if ranged, ok := fanout[objOf(info, id)]; ok && (st.name == "Body" || st.name == "Commit") && ranged == acceptedObj && acceptedObj != nil {
-								hit = true
+						if le, lo, ok := fanCall(s, eo); ok {
+							switch st.name {
+							case "Body", "Commit":
+								if lo == acceptedObj && acceptedObj != nil {
+									hit = true
+								}
+							case "Start":
+								if le != nil && wantRange != nil && sameExpr(le, wantRange) {
+									hit = true
+								}
 							}
 						}
 					}
@@ -347,16 +429,21 @@ func c01CommitGuard(c *Check, r *RuleCtx, commitPts []Pt) {
 		c.Hold("R1", "deliver:commit-guard", r.FI.Decl.Pos(), false, "undecided: no Commit on the delivery")
 		return
 	}
-	// find a bool local that is initialised true and set false only under a nil test of a recorded error inside a
-	// range over the accepted list ("allFailed" idiom)
+	// A bool local that witnesses "some accepted recipient has no recorded error": it is initialised with a constant
+	// and flipped (to the opposite constant) only under a nil test of a recorded error inside a complete loop over
+	// recipients. Both polarities occur: allFailed := true … = false, and anySucceeded := false … = true.
 	var flag types.Object
+	var flipped bool // the value the flag has once a success was seen
 	okShape := false
-	ast.Inspect(r.FI.Decl.Body, func(n ast.Node) bool {
-		rs, ok := n.(*ast.RangeStmt)
-		if !ok {
-			return true
+	for _, l := range elemLoops(info, r.FI.Decl.Body, func(e ast.Expr) bool {
+		sl, ok := info.TypeOf(e).Underlying().(*types.Slice)
+		return ok && isStringType(sl.Elem())
+	}) {
+		if !l.Whole {
+			continue
 		}
-		ast.Inspect(rs.Body, func(x ast.Node) bool {
+		l := l
+		ast.Inspect(l.Body, func(x ast.Node) bool {
 			is, ok := x.(*ast.IfStmt)
 			if !ok {
 				return true
@@ -366,26 +453,26 @@ func c01CommitGuard(c *Check, r *RuleCtx, commitPts []Pt) {
 				return true
 			}
 			ix, ok := ast.Unparen(be.X).(*ast.IndexExpr)
-			if !ok || !isField(info, ix.X, "partialError", "Errs") || rs.Value == nil || objOf(info, ix.Index) != objOf(info, rs.Value) {
+			if !ok || !isField(info, ix.X, "partialError", "Errs") || !l.IsElem(ix.Index) {
 				return true
 			}
-			for _, s := range is.Body.List {
-				if as, ok := s.(*ast.AssignStmt); ok && len(as.Lhs) == 1 && len(as.Rhs) == 1 {
-					if tv, ok := info.Types[as.Rhs[0]]; ok && tv.Value != nil && tv.Value.Kind() == constant.Bool && !constant.BoolVal(tv.Value) {
-						flag = objOf(info, as.Lhs[0])
-						okShape = true
+			for _, st := range is.Body.List {
+				if as, ok := st.(*ast.AssignStmt); ok && len(as.Lhs) == 1 && len(as.Rhs) == 1 {
+					if tv, ok := info.Types[as.Rhs[0]]; ok && tv.Value != nil && tv.Value.Kind() == constant.Bool {
+						if v, isVar := objOf(info, as.Lhs[0]).(*types.Var); isVar && !v.IsField() {
+							flag, flipped, okShape = v, constant.BoolVal(tv.Value), true
+						}
 					}
 				}
 			}
 			return true
 		})
-		return true
-	})
+	}
 	if flag == nil || !okShape {
 		c.Hold("R1", "deliver:commit-guard", r.Pos(commitPts[0]), false, "undecided: no 'all failed' flag computed from the recorded errors of the accepted recipients")
 		return
 	}
-	// every other assignment to the flag must be the constant true
+	// every assignment to the flag is a constant; exactly the flip has the "success seen" value
 	badAssign := ""
 	nAssign := 0
 	ast.Inspect(r.FI.Decl.Body, func(n ast.Node) bool {
@@ -402,10 +489,10 @@ func c01CommitGuard(c *Check, r *RuleCtx, commitPts []Pt) {
 		}
 		return true
 	})
-	// Commit must be unreachable once the edges "flag is false" are removed
-	avoid := r.F.AvoidImplying(func(atom ast.Expr) (bool, bool) {
+	// Commit must be unreachable in the world "no success was seen" (the flag still has its initial value)
+	avoid := r.F.World(func(atom ast.Expr) (bool, bool) {
 		if objOf(info, atom) == flag {
-			return false, true
+			return !flipped, true
 		}
 		return false, false
 	})
@@ -424,14 +511,19 @@ func c01TryDelivery(c *Check) {
 		return
 	}
 	info := r.Info
-	// the loop over the pending recipients: contains a lookup `e, ok := X.Errs[rcpt]`
-	var loop *ast.RangeStmt
+	// the loop over the pending recipients (any loop form, also over a snapshot of the list): contains a lookup
+	// `e, ok := X.Errs[<element>]`
+	var loop *ElemLoop
 	var lookup *ast.AssignStmt
-	for _, rs := range rangesIn(r.FI.Decl.Body, func(rs *ast.RangeStmt) bool { return isField(info, rs.X, "QueueMetadata", "To") }) {
-		ast.Inspect(rs.Body, func(n ast.Node) bool {
+	for _, l := range elemLoops(info, r.FI.Decl.Body, func(e ast.Expr) bool { return isField(info, e, "QueueMetadata", "To") }) {
+		if !l.Whole {
+			continue
+		}
+		l := l
+		ast.Inspect(l.Body, func(n ast.Node) bool {
 			if as, ok := n.(*ast.AssignStmt); ok && len(as.Lhs) == 2 && len(as.Rhs) == 1 {
-				if ix, ok := ast.Unparen(as.Rhs[0]).(*ast.IndexExpr); ok && isField(info, ix.X, "partialError", "Errs") && rs.Value != nil && objOf(info, ix.Index) == objOf(info, rs.Value) {
-					loop, lookup = rs, as
+				if ix, ok := ast.Unparen(as.Rhs[0]).(*ast.IndexExpr); ok && isField(info, ix.X, "partialError", "Errs") && l.IsElem(ix.Index) {
+					loop, lookup = l, as
 				}
 			}
 			return true
@@ -441,7 +533,6 @@ func c01TryDelivery(c *Check) {
 		c.Fail("R4", "tryDelivery:loop", r.FI.Decl.Pos(), "undecided: no loop over the pending recipients that looks up the recorded error of each")
 		return
 	}
-	rcptObj := objOf(info, loop.Value)
 	errObj, okObj := objOf(info, lookup.Lhs[0]), objOf(info, lookup.Lhs[1])
 	lookupPt := ptOfNode(r.F, lookup)
 	// the two result lists: locals appended with the recipient inside the loop
@@ -451,7 +542,7 @@ func c01TryDelivery(c *Check) {
 		if !ok || len(as.Lhs) != 1 || len(as.Rhs) != 1 || !posIn(loop.Body, as.Pos()) {
 			continue
 		}
-		if o, args := appendTarget(info, as.Lhs[0], as.Rhs[0]); o != nil && len(args) == 1 && objOf(info, args[0]) == rcptObj {
+		if o, args := appendTarget(info, as.Lhs[0], as.Rhs[0]); o != nil && len(args) == 1 && loop.IsElem(args[0]) {
 			appendsTo[o] = append(appendsTo[o], pt)
 		}
 	}
@@ -471,15 +562,13 @@ func c01TryDelivery(c *Check) {
 		}
 	}
 	if retryObj == nil || failedObj == nil || len(appendsTo) != 2 {
-		c.Fail("R4", "tryDelivery:lists", loop.Pos(), "undecided: expected exactly two per-attempt lists filled in the classification loop (the retry list, assigned to the pending recipients, and the failed list)")
+		c.Fail("R4", "tryDelivery:lists", loop.Stmt.Pos(), "undecided: expected exactly two per-attempt lists filled in the classification loop (the retry list, assigned to the pending recipients, and the failed list)")
 		return
 	}
 	retryPts, failPts := appendsTo[retryObj], appendsTo[failedObj]
 	isRetry, isFail := isPt(retryPts), isPt(failPts)
-	// loop head: the RangeLoop block; "end of iteration" = reaching the loop head again or leaving the function
-	iterEnd := func(pt Pt) bool {
-		return (pt.B.Kind == kindRangeLoop && pt.B.Stmt == ast.Stmt(loop) && pt.I == 0) || r.F.IsExitPt(pt)
-	}
+	// "end of iteration" = reaching the loop head again or leaving the function
+	iterEnd := r.F.IterEnd(loop)
 	// (1) recorded error present ⇒ exactly one of retry / failed
 	p, f := r.F.ReachRefined(lookupPt, okObj, false, true, iterEnd, orPt(isRetry, isFail))
 	c.Hold("R4", "tryDelivery:failed-or-retried", lookup.Pos(), !f, "a recipient with a recorded error can leave the iteration neither re-queued nor reported as failed (it is silently dropped): "+r.F.Describe(p))
@@ -502,7 +591,7 @@ func c01TryDelivery(c *Check) {
 			both = "a recipient can be re-queued twice: " + r.F.Describe(p)
 		}
 	}
-	c.Hold("R4", "tryDelivery:at-most-one-class", loop.Pos(), both == "", both)
+	c.Hold("R4", "tryDelivery:at-most-one-class", loop.Stmt.Pos(), both == "", both)
 	// (2) no recorded error ⇒ delivered: neither list
 	p, f = r.F.ReachRefined(lookupPt, okObj, true, true, orPt(isRetry, isFail), iterEnd)
 	c.Hold("R4", "tryDelivery:delivered-not-requeued", lookup.Pos(), !f, "a recipient without a recorded error (delivered) is re-queued or reported as failed: "+r.F.Describe(p))
@@ -688,19 +777,43 @@ func c01EmitDSN(c *Check) {
 			continue // after Start: handled by the delivery itself
 		}
 		reason := ""
-		// the return's block is the then-branch of an if
+		// the return's block is the then-branch of an if: every alternative of its condition (the guards may be
+		// merged with ||) must be one of the allowed reasons
 		if is, ok := pt.B.Stmt.(*ast.IfStmt); ok && pt.B.Kind == kindIfThen {
-			cond := ast.Unparen(is.Cond)
-			if be, ok := cond.(*ast.BinaryExpr); ok && be.Op == token.EQL {
-				if isNilIdent(info, be.Y) && isField(info, be.X, "Queue", "dsnPipeline") {
-					reason = "no-pipeline"
+			var alts []ast.Expr
+			var split func(e ast.Expr)
+			split = func(e ast.Expr) {
+				e = ast.Unparen(e)
+				if be, ok := e.(*ast.BinaryExpr); ok && be.Op == token.LOR {
+					split(be.X)
+					split(be.Y)
+					return
 				}
-				if s, ok := constString(info, be.Y); ok && s == "" && (isField(info, be.X, "MsgMetadata", "OriginalFrom") || isField(info, be.X, "QueueMetadata", "From")) {
-					reason = "null-sender"
+				alts = append(alts, e)
+			}
+			split(is.Cond)
+			all := len(alts) > 0
+			for _, cond := range alts {
+				rs := ""
+				if be, ok := cond.(*ast.BinaryExpr); ok && be.Op == token.EQL {
+					if isNilIdent(info, be.Y) && isField(info, be.X, "Queue", "dsnPipeline") {
+						rs = "no-pipeline"
+					}
+					if s, ok := constString(info, be.Y); ok && s == "" && (isField(info, be.X, "MsgMetadata", "OriginalFrom") || isField(info, be.X, "QueueMetadata", "From")) {
+						rs = "null-sender"
+					}
+				}
+				if be, ok := cond.(*ast.BinaryExpr); ok && be.Op == token.NEQ && isNilIdent(info, be.Y) && isErrorType(info.TypeOf(be.X)) {
+					rs = "generation-error"
+				}
+				if rs == "" {
+					all = false
+				} else {
+					reason = rs
 				}
 			}
-			if be, ok := cond.(*ast.BinaryExpr); ok && be.Op == token.NEQ && isNilIdent(info, be.Y) && isErrorType(info.TypeOf(be.X)) {
-				reason = "generation-error"
+			if !all {
+				reason = ""
 			}
 		}
 		c.Hold("R5e", "emitDSN:return", ret.Pos(), reason != "", "the failure report is suppressed on a condition other than: no bounce pipeline, null sender, generation error")
